@@ -76,7 +76,8 @@ CLAIMED['C12'] = dict(
          "on computeGranularity / adjustChunkSizing / calcChunkSize (incl. the do-while loop with invariant and decreases clause), on the chunk->range rule of both dynamic "
          "workers, on the stripe partition loop of initStripeState (loop invariant with a ghost stripe index), on alignDownStripe and on the claim rule of stripeClaim; "
          "property-level lemma functions derive adjacency / first / last / non-emptiness from those contracts only. All inputs, no bound, per index type "
-         "(quick: int8, int32, uint64; thorough: all eight).",
+         "(quick: int8, int32, uint64; thorough: all eight). At the top level, the extracted parallel_for control skeleton (shared with C48/C14) proves that every serial "
+         "fallback on the caller is handed the whole range [range.start, range.end) as written in the code (nothing else visits an index on those paths).",
     note="Decides the arithmetic core only: that every scheduled worker runs exactly once and has returned at wait() is C01/C02 (assumed); distinctness of claim indices is the "
          "atomic-RMW axiom. Back end intwp (Z-VCs, z3-new/cvc5) as for C17. One known finding is reported, not hidden: for 64-bit index types a stripe ending within ~2^20 chunks "
          "of the type maximum lets the claim cursor wrap (native: kAdaptive over [INT64_MAX-1000, INT64_MAX) hangs); the residual obligation with that input class excluded is "
